@@ -349,6 +349,10 @@ func (s *authzServer) validateIssuer(vContext *validationContext) error {
 	} else {
 		vContext.requester = requester
 	}
+	// the key that signed the token (kid) must be a key of the issuer, otherwise any resolvable party could sign for another
+	if kid, err := did.ParseDIDURL(vContext.kid); err != nil || !kid.DID.Equals(*vContext.requester) {
+		return fmt.Errorf(errInvalidIssuerKeyFmt, errors.New("signing key is not a key of the issuer"))
+	}
 
 	validationTime := vContext.jwtBearerToken.IssuedAt()
 	metadata := &resolver.ResolveMetadata{
